@@ -14,6 +14,7 @@
 package c20
 
 import (
+	"os"
 	"bytes"
 	"context"
 	"crypto/sha256"
@@ -140,11 +141,12 @@ type scenario struct {
 	Faults     int
 	Bound      int
 	NoCheck    bool // NoConsistencyCheck option
+	End        int64 // FetcherOptions.EndIndex; only set in continuous scenarios, where it is documented as ignored
 }
 
 func (s scenario) String() string {
-	return fmt.Sprintf("N=%d dest=%s batch=%d fetchers=%d submitters=%d chan=%d cont=%v grow=%v id=%s mode=%s restarts=%d faults=%d nocheck=%v bound=%d",
-		s.N, s.Dest, s.Batch, s.Fetchers, s.Submitters, s.Chan, s.Continuous, s.Grow, s.IDFunc, s.Mode, s.Restarts, s.Faults, s.NoCheck, s.Bound)
+	return fmt.Sprintf("N=%d dest=%s batch=%d fetchers=%d submitters=%d chan=%d cont=%v grow=%v id=%s mode=%s restarts=%d faults=%d nocheck=%v bound=%d end_index=%d",
+		s.N, s.Dest, s.Batch, s.Fetchers, s.Submitters, s.Chan, s.Continuous, s.Grow, s.IDFunc, s.Mode, s.Restarts, s.Faults, s.NoCheck, s.Bound, s.End)
 }
 
 // gated HTTP source
@@ -416,7 +418,7 @@ func runScenario(sc scenario) func(t *testing.T, x *gate.Exec) {
 			x.Violation("harness", "preordered client: %v", err)
 			return
 		}
-		opts := core.Options{FetcherOptions: scanner.FetcherOptions{BatchSize: sc.Batch, ParallelFetch: sc.Fetchers, Continuous: sc.Continuous},
+		opts := core.Options{FetcherOptions: scanner.FetcherOptions{BatchSize: sc.Batch, ParallelFetch: sc.Fetchers, Continuous: sc.Continuous, EndIndex: sc.End},
 			Submitters: sc.Submitters, ChannelSize: sc.Chan, NoConsistencyCheck: sc.NoCheck}
 		el := &election{}
 		ctx, cancel := context.WithCancel(context.Background())
@@ -805,8 +807,22 @@ func oracle(sc scenario, x *gate.Exec, w *world, dlog *reflog.Log, runs []runRes
 				}
 			}
 		}
-		if r.err == nil && destFork && !sc.NoCheck && sc.N > 2 {
+		if r.err == nil && destFork && !sc.NoCheck && sc.N >= 2 {
 			x.Violation("forked-destination-accepted", "%v: run %d succeeded although the destination root is not a prefix of the source log", sc, ri)
+		}
+	}
+	// a destination that is not a prefix of the source must be reported by some run (a continuous run that just
+	// idles next to it until it is told to stop has moved past the root without a proof as well)
+	if destFork && !sc.NoCheck && sc.N >= 2 && len(runs) > 0 {
+		raised := false
+		for _, r := range runs {
+			if r.err != nil && !errors.Is(r.err, context.Canceled) && !strings.Contains(r.err.Error(), "context canceled") {
+				raised = true
+			}
+		}
+		served := len(w.sthServed) // w.mu is held by oracle
+		if !raised && served > 0 && !revoked && (!cancelled || endedDrained) {
+			x.Violation("forked-destination-not-reported", "%v: the destination root is not a prefix of the source log, a source STH was served, yet no run ended with an inconsistency error (results %v)", sc, outs)
 		}
 	}
 	var idx []string
@@ -846,6 +862,10 @@ func scenarios(th bool) []scenario {
 		out = append(out, scenario{N: 2, Dest: "empty", Batch: 2, Fetchers: fs[0], Submitters: fs[1], Chan: 1, Continuous: true, Grow: []int{1, 2}, IDFunc: "index", Mode: "run", Faults: 1, Bound: b})
 		out = append(out, scenario{N: 3, Dest: "prefix1", Batch: 1, Fetchers: fs[0], Submitters: fs[1], Continuous: true, Grow: []int{2}, IDFunc: "cert", Mode: "master", Faults: 1, Restarts: 1, Bound: b})
 	}
+	// continuous mode ignores end_index (config.proto); a destination as large as the source but of another history
+	out = append(out, scenario{N: 2, Dest: "empty", Batch: 2, Fetchers: 1, Submitters: 1, Chan: 1, Continuous: true, Grow: []int{1, 2}, IDFunc: "index", Mode: "run", Faults: 1, Bound: 1, End: 3})
+	out = append(out, scenario{N: 2, Dest: "fork2", Batch: 2, Fetchers: 1, Submitters: 1, Chan: 1, Continuous: true, IDFunc: "cert", Mode: "run", Faults: 1, Bound: 1})
+	out = append(out, scenario{N: 2, Dest: "fork2", Batch: 1, Fetchers: 1, Submitters: 1, IDFunc: "cert", Mode: "run", Restarts: 1, Faults: 1, Bound: 1})
 	if th {
 		for i := range out {
 			out[i].Bound = 3
@@ -860,6 +880,15 @@ func TestCheck(t *testing.T) {
 	klog.LogToStderr(false)
 	klog.SetOutput(io.Discard)
 	scs := scenarios(r.Thorough())
+	if f := os.Getenv("C20_ONLY"); f != "" { // debugging aid: only scenarios whose description contains the string
+		var keep []scenario
+		for _, sc := range scs {
+			if strings.Contains(sc.String(), f) {
+				keep = append(keep, sc)
+			}
+		}
+		scs = keep
+	}
 	r.Rule("scenario = source size x destination state {empty, honest prefix 1/2, full, ahead of the source, 2-entry prefix of a fork} x batch 1-3 x fetchers/submitters 1-2 x channel size x identity function x one-shot / continuous with growth x Run / RunWhenMaster x restarts; per scenario every choice vector within the deviation bound over: which pending source request (get-sth, get-sth-consistency, get-entries) or destination RPC (root, AddSequencedLeaves) is answered next and with what (full, every short length, 429, 500, network error, bad STH signature, wrong consistency proof, stale root, ResourceExhausted, Internal, DeadlineExceeded), source growth, cancellation, mastership loss, restart after failure. distinct_nontrivial = distinct (scenario, stored indices, request count, run results) outcomes")
 	r.Assume("the destination is the reference pre-ordered backend (first writer of an index wins, conflicts are reported per leaf); it integrates stored leaves when its root is read unless the director chooses a lagging signer",
 		"back-off jitter (math/rand, up to 100%) is not owned: after a wait the director lets 1.1 s more pass so that retries differing only by jitter are pending together; no oracle depends on an instant")
